@@ -1,6 +1,7 @@
 (* C23 instances: discrete sets of strided intervals and value sets over the strided-interval model (Model/SI.v). *)
 From Coq Require Import ZArith List Bool Lia.
 Require Import CV.Model.PyPrelude CV.Model.SI CV.Model.Lift CV.Proofs.SISound CV.Proofs.LiftSound.
+Require Import CV.Model.SINot CV.Proofs.SINotSound.
 Import ListNotations.
 Open Scope Z_scope.
 
@@ -8,6 +9,7 @@ Definition wfw (w : Z) (a : si) : Prop := wf a /\ bits a = w.
 Definition dsis_add := lift2 si si_add.
 Definition dsis_sub := lift2 si si_sub.
 Definition dsis_neg := lift1 si si_neg.
+Definition dsis_not := lift1 si si_not.
 Definition vs_add {R} (v : vset si R) (c : si) := vmap si R (fun a => si_add a c) v.
 Definition vs_sub {R} (v : vset si R) (c : si) := vmap si R (fun a => si_sub a c) v.
 
@@ -68,6 +70,19 @@ Theorem dsis_neg_sound w s : Forall (wfw w) s -> Forall proper s ->
   exists r, dsis_neg s = Ok r /\ Forall (wfw w) r /\ forall y, gset si gamma s y -> gset si gamma r ((- y) mod 2 ^ w).
 Proof.
   intros Hs Hal. apply (lift1_sound si (wfw w) gamma si_neg (fun y => (- y) mod 2 ^ w) proper (neg_sound' w)); auto.
+Qed.
+
+Lemma not_sound' w a : wfw w a -> proper a ->
+  exists r, si_not a = Ok r /\ wfw w r /\ forall y, gamma a y -> gamma r (2 ^ w - 1 - y).
+Proof.
+  intros [Wa Ba] Pa. destruct (not_sound_total a Wa Pa) as (r & E & Wr & Br & G).
+  exists r. split; [exact E|]. split; [split; congruence|]. intros y Gy. rewrite <- Ba. exact (G y Gy).
+Qed.
+
+Theorem dsis_not_sound w s : Forall (wfw w) s -> Forall proper s ->
+  exists r, dsis_not s = Ok r /\ Forall (wfw w) r /\ forall y, gset si gamma s y -> gset si gamma r (2 ^ w - 1 - y).
+Proof.
+  intros Hs Hal. apply (lift1_sound si (wfw w) gamma si_not (fun y => 2 ^ w - 1 - y) proper (not_sound' w)); auto.
 Qed.
 
 (* value set + region-less interval: every region separately *)
